@@ -4,7 +4,7 @@
     0 = not compared (invocations, silent steps).
     Lock-free queue: 1 the head pointer, 2 the tail pointer, 3 the next field of node n, 4 the item field of node n. *)
 From Coq Require Import List Arith Bool ZArith.
-From Garr Require Import Conc.Conc Adder.StripedModel Queue.JdkModel.
+From Garr Require Import Conc.Conc Adder.StripedModel Queue.JdkModel Breaker.BreakerModel.
 Import ListNotations.
 
 Definition loc := (nat * (nat * nat))%type.
@@ -96,4 +96,17 @@ Definition jdk_loc (l : pc) : loc :=
   | NHead2 _ _ _ => q_head_loc
   | NCas pred _ _ _ => q_next pred
   | RSet l => q_item l
+  end.
+
+(* Breaker: 1 the breaker's state pointer, 2 the current-bucket pointer of window w, 3 the snapshot of window w
+   (ticker readings, listener callbacks and the queue / adder operations inside package cbreaker are not compared) *)
+Definition breaker_loc (l : bpc) : loc :=
+  match l with
+  | CRLoad | OSLoad | OFLoad => (1, (0, 0))
+  | CRCas _ _ | OSCas _ _ | OFCas _ _ _ => (1, (0, 0))
+  | WCur w _ _ _ => (2, (w, 0))
+  | WCasCur w _ _ _ _ => (2, (w, 0))
+  | WSnapStore w _ _ _ => (3, (w, 0))
+  | WSnapLoad w => (3, (w, 0))
+  | _ => l_none
   end.
